@@ -285,6 +285,14 @@ fn open_index(config: &crate::config::Config) -> Result<(bool, Index)> {
         }
     }
 
+    // The index is about to be recreated from scratch. Whatever the stored
+    // metadata says about it is no longer true, so drop it first: if we are
+    // interrupted before the new index has been committed, the next start must
+    // not find an (empty, but openable) index that is recorded as current.
+    if config.meta_path.is_file() {
+        fs::remove_file(&config.meta_path)?;
+    }
+
     if config.index_path.is_dir() {
         log::info!("removing index: {}", config.index_path.display());
         fs::remove_dir_all(&config.index_path)?;
